@@ -2,10 +2,10 @@
    The model tables (Model/Field.v, Tables.v) are compared exhaustively with the crate's
    tables on every run; here they are shown to satisfy their defining equations, by finite
    sweeps inside Coq (the bounds are in the statements). *)
-From Coq Require Import NArith Bool List Lia.
+From Coq Require Import ZArith NArith Bool List Lia.
 From RS.Gen Require Import Prelude GenConsts.
 From RS.Model Require Import Field Tables Sched Kernels Spec.
-From RS.Proofs Require Import FieldFacts Ring FftSpec SchedEquiv Trunc FftTrunc.
+From RS.Proofs Require Import FieldFacts Ring FftSpec SchedEquiv Trunc FftTrunc WalshZ Walsh LchPoly DecodeBase Locator Blocks.
 Import ListNotations.
 Local Open Scope N_scope.
 
@@ -203,6 +203,43 @@ Definition fft_matches_spec (e : engine) (size sd : N) (c : list N) : bool :=
     let out := fft sym_ops e size trunc sd c in
     forallb (fun i => nth (N.to_nat i) out 0 =? lch_eval c (sd + i)) (range 0 trunc)) (range 1 (size + 1)).
 Definition coeffs (n : N) : list N := map (fun i => (i * 7919 + 13) mod 65536) (range 0 n).
+(* ---------- fwht, LOG_WALSH, eval_poly, formal_derivative ---------- *)
+(* fwht (radix-4 layers, truncated) is the Walsh-Hadamard transform modulo 65535: for any data
+   with entries <= 65535 that are zero from m_truncated on, every output is <= 65535 and
+   congruent to the integer transform wht (WalshZ: wht (a ++ b) = (wht a + wht b) ++ (wht a - wht b)) *)
+Theorem C15_fwht : forall (d : list N) t, N.of_nat (length d) = GF_ORDER -> Forall (fun x => x <= 65535) d -> t <= GF_ORDER ->
+  (forall i, (i < length d)%nat -> t <= N.of_nat i -> nth i d 0 = 0) ->
+  Forall2 (fun x z => x <= 65535 /\ (Z.of_N x mod 65535 = z mod 65535)%Z) (fwht d t) (wht 16 (map Z.of_N d)).
+Proof. exact ep_step1. Qed.
+Print Assumptions C15_fwht.
+
+(* the LOG_WALSH table is the transform of the logarithm table *)
+Theorem C15_log_walsh :
+  Forall2 (fun x z => x <= 65535 /\ (Z.of_N x mod 65535 = z mod 65535)%Z) log_walsh (wht 16 (map Z.of_N logtab)).
+Proof. exact ep_step2. Qed.
+Print Assumptions C15_log_walsh.
+
+(* eval_poly: for an erasure indicator (1 = erased, zero from truncated_size on), multiplying a
+   symbol by exp(out[v]) multiplies it by the product of (v xor j) over the erased positions
+   j <> v, and multiplying by exp(65535 - out[v]) divides by it - the erasure locator and, at an
+   erased v, its formal derivative *)
+Theorem C15_eval_poly : forall (el : N -> bool) t, t <= GF_ORDER -> (forall v, t <= v -> v < 65536 -> el v = false) ->
+  er_spec (eval_poly (map (fun i => if el i then 1 else 0) (range 0 GF_ORDER)) t) (filter el (range 0 65536)).
+Proof. exact eval_poly_er_spec. Qed.
+Print Assumptions C15_eval_poly.
+
+(* s_k(x) = x >> k in the Cantor representation; the crate's formal_derivative is Id + d/dx on the
+   LCH coefficients of a polynomial over the MathComp field GF(2^16) *)
+Theorem C15_subspace_shift : forall k x, x < 65536 -> s_poly k x = N.shiftr x (N.of_nat k).
+Proof. exact s_poly_shift. Qed.
+Print Assumptions C15_subspace_shift.
+(* statement (printed by the Check below): forall k l, length l = 2^k -> Forall W16 l ->
+   lchp k (formal_derivative_rec sym_ops k l) = lchp k l + (lchp k l)^`()   in {poly gf} *)
+Theorem C15_formal_derivative : ltac:(let t := type of lchp_fdr in exact t).
+Proof. exact lchp_fdr. Qed.
+Check C15_formal_derivative.
+Print Assumptions C15_formal_derivative.
+
 Theorem C15_fft_instances :
   forallb (fun e => forallb (fun k => fft_matches_spec e (2 ^ k) 0 (coeffs (2 ^ k)) &&
                                       fft_matches_spec e (2 ^ k) (3 * 2 ^ k) (coeffs (2 ^ k))) [0; 1; 2; 3; 4])
